@@ -33,7 +33,7 @@ import (
 func init() { drivers["C13"] = driveC13 }
 
 func c13Schema() dyn.Schema {
-	return dyn.Schema{Name: "C13", Tables: []dyn.Table{{Name: "T", IsRoot: true, Indexes: [][]string{{"name"}}, Cols: []val.Col{
+	return dyn.Schema{Name: "C13", Tables: []dyn.Table{{Name: "T", IsRoot: true, Cols: []val.Col{
 		{Name: "name", K: 'a', KT: 's'}, {Name: "n", K: 'a', KT: 'i'}, {Name: "b", K: 'a', KT: 'b'},
 		{Name: "os", K: 'o', KT: 's'}, {Name: "oi", K: 'o', KT: 'i'},
 		{Name: "ss", K: 's', KT: 's', Max: -1}, {Name: "si", K: 's', KT: 'i', Max: -1},
@@ -239,7 +239,8 @@ func driveC13(o opts) error {
 			case x <= 5:
 				u := uuids[g.Intn(len(uuids))]
 				var m model.Model
-				path := []string{"Row", "Rows", "RowByModel", "RowsByCondition", "RowsByModels"}[g.Intn(5)]
+				path := []string{"Row", "Rows", "RowByModel", "RowsByCondition", "RowsByModels", "RowsByCondition(nil)", "RowsByCondition(empty)",
+					"RowsByCondition(name)", "RowsByCondition(n)"}[g.Intn(9)]
 				switch path {
 				case "Row":
 					m = rc.Row(u)
@@ -251,6 +252,18 @@ func driveC13(o opts) error {
 				case "RowsByModels":
 					probe := db.Make("T", u, nil)
 					ms, _ := rc.RowsByModels([]model.Model{probe})
+					m = ms[u]
+				case "RowsByCondition(nil)":
+					ms, _ := rc.RowsByCondition(nil)
+					m = ms[u]
+				case "RowsByCondition(empty)":
+					ms, _ := rc.RowsByCondition([]ovsdb.Condition{})
+					m = ms[u]
+				case "RowsByCondition(name)":
+					ms, _ := rc.RowsByCondition([]ovsdb.Condition{{Column: "name", Function: ovsdb.ConditionEqual, Value: shadow[u]["name"].A.S}})
+					m = ms[u]
+				case "RowsByCondition(n)":
+					ms, _ := rc.RowsByCondition([]ovsdb.Condition{{Column: "n", Function: ovsdb.ConditionEqual, Value: int(shadow[u]["n"].A.I)}})
 					m = ms[u]
 				default:
 					ms, err := rc.RowsByCondition([]ovsdb.Condition{{Column: "_uuid", Function: ovsdb.ConditionEqual, Value: ovsdb.UUID{GoUUID: u}}})
